@@ -67,16 +67,20 @@ Abandon(P, a) ==
               !.vs[a]     = FALSE,
               !.owner     = [t \in Tx |-> IF t \in TxsOf(a) /\ P.owner[t] = a /\ P.vs[a] THEN None ELSE @[t]]]
 
-(* retryCosiSnapshot(s) AS CODED: abandon, then requeue EVERY transaction of *)
-(* the snapshot.                                                            *)
-RetryCode(P, a) == Requeue(Abandon(P, a), AggTxs[a])
-
-(* The intended behaviour (DESIGN.md section 7, D9): requeue only the        *)
-(* transactions the retired proposal still owns (or nobody owns).           *)
+(* retryCosiSnapshot(s): requeue only the transactions the retired proposal   *)
+(* still owns, or nobody owns (the verifier entry of the transaction is     *)
+(* this proposal's verifier or absent), then abandon. A transaction whose   *)
+(* entry points at another proposal is left to that proposal.               *)
 StillOwn(P, a) == SelectSeq(AggTxs[a], LAMBDA t : P.owner[t] \in {a, None})
-RetryIdeal(P, a) == Requeue(Abandon(P, a), StillOwn(P, a))
+RetryOwned(P, a) == Requeue(Abandon(P, a), StillOwn(P, a))
 
-Retry(P, a, ideal) == IF ideal THEN RetryIdeal(P, a) ELSE RetryCode(P, a)
+(* The behaviour before the repair a97b75a (DESIGN.md section 7, D9), kept   *)
+(* only as a non-vacuity witness of the property: requeue EVERY transaction *)
+(* of the snapshot.                                                         *)
+RetryAll(P, a) == Requeue(Abandon(P, a), AggTxs[a])
+
+\* owned = TRUE: the specification; owned = FALSE: the witness variant
+Retry(P, a, owned) == IF owned THEN RetryOwned(P, a) ELSE RetryAll(P, a)
 
 (* expireCosiAggregators(now): every installed proposal older than the gap  *)
 (* that is not complete is retried. The code ranges over a Go map (random   *)
@@ -164,19 +168,4 @@ StepOKR(P, o, Q, R) == NoLoss(P, o, Q, R) /\ NoRequeueOfOwned(P, o, Q, R)
 StepOK(P, o, Q) == StepOKR(P, o, Q, Retired(P, o))
 StepOKObs(P, o, Q) == StepOKR(P, o, Q, RetiredObs(P, Q))
 
-(* Known finding C24-1 (DESIGN.md section 7, D9): when a proposal is retired *)
-(* through retryCosiSnapshot (expiry, or a terminal failure) one of its     *)
-(* transactions is re-queued although another, still active, proposal owns  *)
-(* it in the verifier map.                                                  *)
-KnownFinding_C24_1_R(P, o, Q, R) ==
-    /\ o.op \in {"Expire", "Retry"}            \* both go through retryCosiSnapshot
-    /\ NoLoss(P, o, Q, R)
-    /\ \A t \in Tx : (OwnedByActiveR(P, o, t, R) /\ ~Eligible(P, t) /\ Eligible(Q, t)) =>
-          \* exactly the signature: t belongs to a proposal retired by this step, is unfinalized
-          \* with a body, and its owner is ANOTHER proposal that stays installed
-          /\ t \in RetiredTxsR(o, R)
-          /\ ~P.final[t] /\ HasBody(P, t)
-          /\ P.owner[t] \notin R /\ P.agg[P.owner[t]].on /\ Q.agg[P.owner[t]].on
-KnownFinding_C24_1(P, o, Q) == KnownFinding_C24_1_R(P, o, Q, Retired(P, o))
-KnownFinding_C24_1_Obs(P, o, Q) == KnownFinding_C24_1_R(P, o, Q, RetiredObs(P, Q))
 =============================================================================
